@@ -32,7 +32,62 @@ func probesFor(prop string) []ProbeFinding {
 				}
 			}
 		}
+		// outside the recorded range (|a-b| far above 1e-240): must be exactly the derivative — a wider tie band is
+		// a different violation than the recorded one
+		for _, d := range []float64{1e-200, 1e-30, 1.5e-12, 1e-9} {
+			r := NewRunner(1)
+			r.Do(leafC([]int{1}, []float64{d}, true))
+			r.Do(leafC([]int{1}, []float64{0}, false))
+			r.Do(Cmd{Op: OpBin, K: 6, T: 0, U: T(1)})
+			o := r.Do(Cmd{Op: OpBackprop, U: T(2)})
+			if o.Kind == "grads" {
+				for _, g := range o.Grads {
+					if g.Name == 0 && !g.Nil && len(g.Vals) == 1 && g.Vals[0] != 1 {
+						out = append(out, ProbeFinding{Key: "tie-band-wider-than-1e-240", What: fmt.Sprintf("ElMax(a,b) with a-b = %g (far above 1e-240) does not give a the full gradient", d),
+							Scenario: scenarioString(r.Cmds), Observed: fmt.Sprint(g.Vals), Expected: "[1]"})
+					}
+				}
+			}
+		}
+	case "C13":
+		// predictions strictly inside the clipping interval, close to a bound: full analytic gradient
+		for k := 1; k <= 2; k++ {
+			for _, pv := range []float64{1.5e-12, 1 - 1.5e-12} {
+				r := NewRunner(1)
+				ds := []int{1}
+				if k == 2 {
+					ds = []int{1, 1}
+				}
+				r.Do(leafC(ds, []float64{pv}, true))
+				r.Do(leafC(ds, []float64{1}, false))
+				r.Do(Cmd{Op: OpLoss, K: k, Targs: []Targ{T(0), T(1)}})
+				o := r.Do(Cmd{Op: OpBackprop, U: T(2)})
+				want := -1 / pv // BCE with t = 1: ((1-1)/(1-p) - 1/p)/1 ; CE: -(1/p)/1
+				if o.Kind == "grads" {
+					for _, g := range o.Grads {
+						if g.Name == 0 && !g.Nil && len(g.Vals) == 1 && !(g.Vals[0] > want*(1+1e-9) && g.Vals[0] < want*(1-1e-9)) {
+							out = append(out, ProbeFinding{Key: "clip-tie-band", What: fmt.Sprintf("%s gradient at prediction %g (strictly inside the clipping interval), target 1", lossNames[k], pv),
+								Scenario: scenarioString(r.Cmds), Observed: fmt.Sprint(g.Vals), Expected: fmt.Sprint([]float64{want})})
+						}
+					}
+				}
+			}
+		}
 	case "C15":
+		for _, d := range []float64{1e-200, 1e-30, 1e-9} {
+			r := NewRunner(1)
+			r.Do(leafC([]int{1}, []float64{d}, true))
+			r.Do(Cmd{Op: OpAct, K: 0, Targs: []Targ{T(0)}})
+			o := r.Do(Cmd{Op: OpBackprop, U: T(1)})
+			if o.Kind == "grads" {
+				for _, g := range o.Grads {
+					if g.Name == 0 && !g.Nil && len(g.Vals) == 1 && g.Vals[0] != 1 {
+						out = append(out, ProbeFinding{Key: "tie-band-wider-than-1e-240", What: fmt.Sprintf("Relu at x = %g (far above 1e-240) does not pass the full gradient", d),
+							Scenario: scenarioString(r.Cmds), Observed: fmt.Sprint(g.Vals), Expected: "[1]"})
+					}
+				}
+			}
+		}
 		// Relu at x = 1e-241 (away from 0): derivative 1
 		r := NewRunner(1)
 		r.Do(leafC([]int{1}, []float64{1e-241}, true))
